@@ -18,6 +18,13 @@ def gen_case(rng):
             params.append([nm, "int0d", rng.choice([sizes.get(nm, 3), 5, 0, 9])])
         else:
             d = rng.choice(DIMS[:9] + (["n*factor"] if "factor" in names else []))
+            if shapes.get("x") and nm != "x" and rng.random() < .3:
+                # an axis given by a STATIC property of an earlier array argument through the f-string syntax
+                d = rng.choice(["{x.shape[0]}", "{x.ndim}", "{x.size}", "{len(x)} n", "{x.shape[-1]}+1"])
+                shapes[nm] = [{"{x.shape[0]}": shapes["x"][0], "{x.ndim}": len(shapes["x"]), "{x.size}": eval("*".join(map(str, shapes["x"]))), "{len(x)}": shapes["x"][0], "n": sizes["n"],
+                               "{x.shape[-1]}+1": shapes["x"][-1] + 1}[t] + (1 if rng.random() < .2 else 0) for t in d.split()]
+                params.append([nm, d, "float32", "Float"])
+                continue
             sh = []
             for tok in d.split():
                 if tok == "*v":
@@ -55,6 +62,11 @@ CATALOGUE = [
     {"params": [["x", "n", "float32", "Float"], ["factor", "int0d", 2], ["y", "n*factor", "float32", "Float"]], "shapes": {"x": [3], "y": [6]}, "ret_from": None, "ret": None, "checker": "typeguard"},
     {"params": [["x", "n", "float32", "Float"], ["factor", "int0d", 3], ["y", "n*factor", "float32", "Float"]], "shapes": {"x": [3], "y": [6]}, "ret_from": None, "ret": None, "checker": "beartype"},
     {"params": [["x", "n m", "float32", "Float"], ["y", "m", "float32", "Float"]], "shapes": {"x": [2, 3], "y": [3]}, "ret_from": "y", "ret": "m", "checker": "typeguard"},
+    # axes that name a static property of an array ARGUMENT ({x.size}, {len(x)}, {x.ndim}, {x.shape[i]}): tracers carry all of these
+    {"params": [["x", "n", "float32", "Float"], ["y", "{x.size}", "float32", "Float"]], "shapes": {"x": [3], "y": [3]}, "ret_from": "x", "ret": "{len(x)}", "checker": "typeguard"},
+    {"params": [["x", "n m", "float32", "Float"], ["y", "{x.ndim} {x.shape[1]}", "float32", "Float"]], "shapes": {"x": [2, 3], "y": [2, 3]}, "ret_from": None, "ret": None, "checker": "beartype"},
+    {"params": [["x", "n m", "float32", "Float"], ["y", "{x.size}", "float32", "Float"]], "shapes": {"x": [2, 3], "y": [5]}, "ret_from": "x", "ret": "n {x.shape[-1]}", "checker": "typeguard"},
+    {"params": [["x", "*b", "float32", "Float"]], "shapes": {"x": [2, 3]}, "ret_from": "x", "ret": "{x.shape[0]} {x.size}//2", "checker": "typeguard"},
     {"params": [["x", "n m", "float32", "Float"], ["y", "m", "float32", "Float"]], "shapes": {"x": [2, 3], "y": [4]}, "ret_from": "y", "ret": "m", "checker": "typeguard"},
 ]
 
